@@ -12,6 +12,7 @@ from __future__ import annotations
 
 import json
 import random
+import tempfile
 
 from gverif import tlc
 from gverif.common import SEED, ensure_repo
@@ -168,7 +169,8 @@ class World:
                 continue   # e.g. a stubs module that was merged away keeps its dict
             for n, real in self.o[c].members.items():
                 if real.parent is not self.o[c]:
-                    bad.append(("I1", f"{c}.members[{n!r}].parent is {self.sid(real.parent)}"))
+                    stubs = KIND_OF[c] == "module" and FILE_OF[c].endswith(".pyi")
+                    bad.append(("I1", f"{c}.members[{n!r}].parent is {self.sid(real.parent)}", "reinserted-merged-stubs-module" if stubs else "-"))
         for sid, real, parts in att:
             dotted = ".".join(parts)
             # I2 retrievable by own path, through every key spelling and both lookup APIs
@@ -221,7 +223,10 @@ class World:
                     was = any(r["alias"] == a and ".".join(r["path"]) == al.path for rs in pre["backrefs"].values() for r in rs)
                     # the entry now belongs to another alias object that does not live at this path (removed or moved away)
                     removed = holder is not None and holder is not al and not any(r is holder and ".".join(parts) == al.path for _, r, parts in att)
-                    if was and removed and op.get("value") != a and op.get("root") != a:
+                    # (`was`: it was listed before this call; or the alias just came (back) into the tree with one of its
+                    #  ancestors while the key was taken over, in its absence, by an alias that has itself left that path)
+                    reattached = pre is not None and not self._pre_attached(pre, a)
+                    if (was or reattached) and removed and op.get("value") != a and op.get("root") != a:
                         cause = "entry-overwritten-by-removed-alias"
                 bad.append(("I6", f"{a} (path {al.path}) is not listed in aliases of its final target {self.sid(t)}: {sorted(t.aliases)}", cause))
         if op is not None and outcome == "ok":
@@ -380,10 +385,14 @@ def replay_histories(run: Run, griffe, cases: list, mode: str):
         w.materialise(hist[0]["post"])
         pre = hist[0]["post"]
         ok = True
+        prev_bad = {(b[0], b[1].split(": [")[0]) for b in w.invariants(None, None, "ok")}
         for i, step in enumerate(hist[1:]):
             outcome = w.call(step["op"], i + len(hist))
             run.evaluated()
-            for inv, what, *cause in w.invariants(pre, step["op"], outcome):
+            now = w.invariants(pre, step["op"], outcome)
+            fresh = [b for b in now if (b[0], b[1].split(": [")[0]) not in prev_bad]   # a violation is attributed to the call that created it
+            prev_bad = {(b[0], b[1].split(": [")[0]) for b in now}
+            for inv, what, *cause in fresh:
                 run.violation({"mode": mode, "op": step["op"]["name"], "inv": inv, "cause": (cause or ["-"])[0]}, f"{inv} broken at step {i + 1} of a {len(hist) - 1}-call history (mode {mode}): {what}", {"kind": "hist", "mode": mode, "hist": hist[: i + 2]})
             if outcome.startswith("Other:") or outcome == "RuntimeError" or (outcome == "AttributeError" and step["post"]["outcome"] != outcome):
                 run.violation({"mode": mode, "op": step["op"]["name"], "inv": "exception", "cause": "dict-changed-size-predicted" if (outcome == "RuntimeError" and step["post"]["outcome"] == outcome) else outcome}, f"{step['op']} raised {outcome}", {"kind": "hist", "mode": mode, "hist": hist[: i + 2]})
@@ -457,6 +466,28 @@ def real_loads(run: Run, griffe, packages: list):
 
 
 ALL = {"SKIP": "{}", "SEEDS": "{1, 2, 3}"}
+class HistSampler:
+    """Same for simulated behaviours: distinct by their sequence of calls."""
+
+    def __init__(self, cap: int, seed: int):
+        self.cap, self.rnd, self.seen, self.keep, self.distinct = cap, random.Random(seed), set(), [], 0
+
+    def __call__(self, rec: dict):
+        import hashlib  # noqa: PLC0415
+
+        h = hashlib.md5(json.dumps([s["op"] for s in rec["hist"]], sort_keys=True).encode()).digest()[:10]  # noqa: S324
+        if h in self.seen:
+            return
+        self.seen.add(h)
+        self.distinct += 1
+        if len(self.keep) < self.cap:
+            self.keep.append(rec)
+        else:
+            j = self.rnd.randrange(self.distinct)
+            if j < self.cap:
+                self.keep[j] = rec
+
+
 class Sampler:
     """Streaming collector for TLC transition records: de-duplicates by (pre-state, call) and keeps a seeded
     reservoir sample of at most `cap` distinct records (millions of records never sit in memory)."""
@@ -517,27 +548,30 @@ def main(tier: str, replay: str | None = None):
     from gverif.common import die
 
     depth_check = 3 if tier == "quick" else 5
-    depth_gen = 2 if tier == "quick" else 3
+    depth_gen = 2   # (depth 3 prints > 10^7 transitions; the deeper, rare branches are the slices' job)
     cap = 12000 if tier == "quick" else 300000
     nsim = 100 if tier == "quick" else 2000
     jobs = {}
     samplers = {}
+    meta_root = None if tier == "quick" else tempfile.gettempdir()   # large searches: TLC's queue files on disk, not tmpfs
     with ThreadPoolExecutor(max_workers=8) as pool:
         for mode, consts in MODES.items():
             d = {"clean": depth_check, "free": 4, "lost": 3}[mode]
-            jobs["check", mode] = pool.submit(tlc.run, "Tree", "Tree_check.cfg", workers=5, constants=dict(consts, DEPTH=d), timeout=6000, heap="6g", dump_trace=True)
+            jobs["check", mode] = pool.submit(tlc.run, "Tree", "Tree_check.cfg", workers=5, constants=dict(consts, DEPTH=d), timeout=6000, heap="6g", dump_trace=True, meta_root=meta_root)
             # every transition from the trees reachable within depth_gen calls of the first two initial trees
             # (the third, alias-rich one is explored by the "retarget" slice; quick restricts the lost domain to tree 2)
             seeds = "{1, 2}" if (tier == "quick" and mode != "lost") else ("{2}" if tier == "quick" else "{1, 2, 3}")
             samplers["gen", mode] = Sampler(cap if mode == "clean" else cap // 2, SEED)
             jobs["gen", mode] = pool.submit(tlc.run, "Tree", "Tree_gen.cfg", workers=2, constants=dict(consts, GEN="trans", DEPTH=depth_gen, SEEDS=seeds), timeout=6000, heap="4g",
-                                            on_line=samplers["gen", mode], keep_cases=False)
+                                            on_line=samplers["gen", mode], keep_cases=False, meta_root=meta_root)
         for name, (_, consts, dq, dt) in SLICES.items():
             samplers["rare", name] = Sampler(cap, SEED + 7)
             jobs["rare", name] = pool.submit(tlc.run, "Tree", "Tree_rare.cfg", workers=3, constants=dict(consts, DEPTH=dq if tier == "quick" else dt), timeout=6000, heap="4g",
-                                             on_line=samplers["rare", name], keep_cases=False)
+                                             on_line=samplers["rare", name], keep_cases=False, meta_root=meta_root)
         for mode in ("clean", "free"):
-            jobs["sim", mode] = pool.submit(tlc.run, "Tree", "Tree_gen.cfg", workers=1, constants=dict(MODES[mode], GEN="hist", DEPTH=14), simulate=f"num={nsim}", depth=15, seed=SEED + 1, timeout=6000)
+            samplers["sim", mode] = HistSampler(nsim * 4, SEED + 3)
+            jobs["sim", mode] = pool.submit(tlc.run, "Tree", "Tree_gen.cfg", workers=1, constants=dict(MODES[mode], GEN="hist", DEPTH=14), simulate=f"num={nsim}", depth=15, seed=SEED + 1, timeout=6000,
+                                            on_line=samplers["sim", mode], keep_cases=False, meta_root=meta_root)
     model_verdicts = {}
     for mode in MODES:
         res = jobs["check", mode].result()
@@ -585,16 +619,9 @@ def main(tier: str, replay: str | None = None):
             print(res.tail)
             die(f"C16: simulation failed: {res.errors}")
         run.add_tlc(res)
-        # TLC evaluates the emitting invariant on every candidate successor of the last step: the
-        # printed histories share prefixes; replay a seeded sample of the distinct ones
-        seen, uniq = set(), []
-        for c in res.cases:
-            k = json.dumps([s["op"] for s in c["hist"]], sort_keys=True)
-            if k not in seen:
-                seen.add(k)
-                uniq.append(c)
-        if len(uniq) > nsim * 4:
-            uniq = rnd.sample(uniq, nsim * 4)
+        # TLC evaluates the emitting invariant on every candidate successor of the last step: the printed
+        # histories share prefixes; a seeded sample of the distinct ones was kept while streaming
+        uniq = samplers["sim", mode].keep
         drift += replay_histories(run, griffe, uniq, mode)
     real_loads(run, griffe, ["json", "email", "logging", "_griffe"] if tier == "quick" else ["json", "email", "logging", "_griffe", "importlib", "concurrent", "unittest", "xml", "asyncio", "http", "collections", "multiprocessing"])
     if drift:
